@@ -61,7 +61,11 @@ PROPS = {
                 # payload passthru mode: callers and callees that announced the feature or did not
                 mc2=[dict(kinds=["join", "reg", "call", "yield", "leave", "ppt"],
                           inv=["TablesOK", "C02_AtMostOneFinal", "C02_NoStray", "C02_Owed", "C02_NoOrphan"],
-                          quick=dict(steps=5, nsess=2), thorough=dict(steps=6, nsess=3))],
+                          quick=dict(steps=5, nsess=2), thorough=dict(steps=6, nsess=3)),
+                     # progressive call invocations: chunks, the final YIELD before the last chunk, departures
+                     dict(kinds=["join", "reg", "unreg", "call", "yield", "leave", "pci"],
+                          inv=["TablesOK", "C02_AtMostOneFinal", "C02_NoStray", "C02_Owed", "C02_NoOrphan"],
+                          quick=dict(steps=5, nsess=2), thorough=dict(steps=6, nsess=2))],
                 gen=[dict(bag="rpc", depth=18, quick=120, thorough=2500),
                      dict(bag="cancel", depth=18, quick=80, thorough=1500),
                      dict(bag="killrpc", depth=16, quick=80, thorough=1500),
@@ -74,6 +78,9 @@ PROPS = {
                 mc=dict(kinds=MC_RPC_KINDS,
                         inv=["TablesOK", "C03_FreshInvocationIds", "C03_RegView", "C03_Routing", "C03_NoInvocationOtherwise"],
                         quick=dict(steps=5, nsess=2), thorough=dict(steps=6, nsess=3)),
+                mc2=[dict(kinds=["join", "reg", "unreg", "call", "yield", "leave", "pci"],
+                          inv=["TablesOK", "C03_FreshInvocationIds", "C03_RegView", "C03_Routing", "C03_Chunks", "C03_NoInvocationOtherwise"],
+                          quick=dict(steps=5, nsess=2), thorough=dict(steps=6, nsess=2))],
                 gen=[dict(bag="rpc", depth=18, quick=120, thorough=3000),
                      dict(bag="shared", depth=20, quick=100, thorough=2000),
                      dict(bag="pci", depth=18, quick=120, thorough=2000)],
